@@ -170,9 +170,13 @@ impl ModuleImports {
 impl Serializable for ModuleImports {
     fn write_into<W: ByteWriter>(&self, target: &mut W) {
         target.write_u16(self.imports.len() as u16);
-        // We don't need to serialize the library names (the keys), since the libraty paths (the
-        // values) contain the library names
-        self.imports.values().for_each(|i| i.write_into(target));
+        // the module names (the keys) are serialized together with the library paths (the values):
+        // for a module imported under an alias the name is not the last component of the path
+        for (name, path) in self.imports.iter() {
+            target.write_u8(name.len() as u8);
+            target.write_bytes(name.as_bytes());
+            path.write_into(target);
+        }
         target.write_u16(self.invoked_procs.len() as u16);
         for (proc_id, (proc_name, lib_path)) in self.invoked_procs.iter() {
             proc_id.write_into(target);
@@ -187,8 +191,12 @@ impl Deserializable for ModuleImports {
         let mut imports = BTreeMap::<String, LibraryPath>::new();
         let num_imports = source.read_u16()?;
         for _ in 0..num_imports {
+            let name_len = source.read_u8()? as usize;
+            let name = source.read_vec(name_len)?;
+            let name = String::from_utf8(name)
+                .map_err(|e| DeserializationError::InvalidValue(e.to_string()))?;
             let path = LibraryPath::read_from(source)?;
-            imports.insert(path.last().to_string(), path);
+            imports.insert(name, path);
         }
 
         let mut used_imported_procs = InvokedProcsMap::new();
